@@ -42,6 +42,18 @@ def trace_sha(res):
     return res.get("trace_digest") or _trace_digest(res.get("trace", ()))
 
 
+def limit_resources(mem_gb=6, cpu_s=None):
+    """a change to annet that makes it eat memory or spin must end in a verdict, not take the sandbox down"""
+    import resource
+    lim = int(mem_gb * (1 << 30))
+    try:
+        resource.setrlimit(resource.RLIMIT_AS, (lim, lim))
+        if cpu_s:
+            resource.setrlimit(resource.RLIMIT_CPU, (cpu_s, cpu_s + 30))
+    except (ValueError, OSError):
+        pass
+
+
 def _run(engine, ch):
     """engines with isolate=True execute every run in a child forked from the (pristine) engine process, so that the
     verdict of a run can never depend on state an earlier run of the same batch worker left behind"""
@@ -54,6 +66,7 @@ def _run(engine, ch):
         os.close(r)
         try:
             try:
+                limit_resources(4, 300)
                 data = pickle.dumps(("OK", engine.run(ch), list(ch.log)))
             except HarnessError as e:
                 data = pickle.dumps(("HARNESS", str(e), None))
@@ -102,6 +115,7 @@ def _chunk(args):
     base, label, lo, hi, keep_samples = args
     engine = _ENGINE
     faulthandler.dump_traceback_later(600, exit=True)
+    limit_resources(8)
     out = {"n": 0, "nontrivial": 0, "sigs": set(), "sim_s": 0.0, "steps": 0,
            "faults": collections.Counter(), "probes": collections.Counter(),
            "strategies": collections.Counter(), "digests": [], "violations": [], "samples": [],
@@ -412,6 +426,19 @@ def run_check(engine, tier):
                             {"run_index": i, "original_choices_len": len(choices), "minimise_runs": spent,
                              "occurrences_in_batch": len(vs)})
         ok, outp = replay_in_fresh_process(path)
+        if not ok and "NOT REPRODUCED: other violation " in outp:
+            # the same choice list violates the property in the fresh process too, but trips a different oracle clause
+            # first (verdicts that depend on a resource limit): keep the clause that replays, note the original one
+            other = outp.split("NOT REPRODUCED: other violation ", 1)[1].split()[0]
+            c2, _, k2 = other.partition("/")
+            with open(path) as f:
+                doc = json.load(f)
+            doc["clause_in_batch"], doc["key_in_batch"] = doc["clause"], doc["key"]
+            doc["clause"], doc["key"] = c2, k2
+            doc.pop("trace_sha256", None)
+            with open(path, "w") as f:
+                json.dump(doc, f, indent=1, default=repr)
+            ok, outp = replay_in_fresh_process(path)
         if not ok:
             raise HarnessError("replay file %s does not reproduce in a fresh process:\n%s" % (path, outp[-2000:]))
         print("VIOLATION property=%s replay=%s" % (prop, path), flush=True)
